@@ -47,24 +47,28 @@ func Spec() *run.Spec {
 		},
 		MinNontrivial: map[string]int{"quick": 500, "thorough": 1000},
 		MinObserved: map[string]int64{
-			"add_basis_pairs":          256,
-			"mul_basis_pairs":          256,
-			"det_row_basis":            256,
-			"inverse_permutations":     24,
-			"rotto_exact_antiparallel": 6,
-			"rotto_snap_band":          50,
-			"inverse_law_checked":      500,
-			"mesh_positions":           1000,
-			"aabb_grow_steps":          1000,
-			"retained_results":         5000,
-			"axis_magnitude_decades":   10,
-			"axis_angle_far_from_unit": 1000,
-			"vector_magnitude_decades": 12,
-			"trs_scale_exactly_zero":   100,
-			"retained_entry_points":    9,
-			"large_cases":              12,
-			"large_entry_points":       13,
-			"large_size_mod_4096":      4,
+			"add_basis_pairs":                                     256,
+			"aabb_negative_size_boxes":                            2000,
+			"aabb_size_sign_patterns":                             20,
+			"aabb_encapsulate_bounds_with_negative_size_argument": 1000,
+			"aabb_negative_argument_steps_judged":                 500,
+			"mul_basis_pairs":                                     256,
+			"det_row_basis":                                       256,
+			"inverse_permutations":                                24,
+			"rotto_exact_antiparallel":                            6,
+			"rotto_snap_band":                                     50,
+			"inverse_law_checked":                                 500,
+			"mesh_positions":                                      1000,
+			"aabb_grow_steps":                                     1000,
+			"retained_results":                                    5000,
+			"axis_magnitude_decades":                              10,
+			"axis_angle_far_from_unit":                            1000,
+			"vector_magnitude_decades":                            12,
+			"trs_scale_exactly_zero":                              100,
+			"retained_entry_points":                               9,
+			"large_cases":                                         12,
+			"large_entry_points":                                  13,
+			"large_size_mod_4096":                                 4,
 		},
 		MinObservedTier: structFloors(),
 		Phases: []run.Phase{
@@ -75,6 +79,7 @@ func Spec() *run.Spec {
 			{Name: "trs", Cases: tiered(8000, 80000), Run: trsCase, Batch: 1000},
 			{Name: "mesh", Cases: tiered(4000, 50000), Run: meshCase, Batch: 500},
 			{Name: "aabb", Cases: tiered(8000, 80000), Run: aabbCase, Batch: 1000},
+			{Name: "aabb-signed", Cases: tiered(4000, 40000), Run: aabbSignedCase, Batch: 1000},
 			{Name: "retained", Cases: tiered(3000, 30000), Run: retainedCase, Batch: 250},
 			{Name: "large", Cases: tiered(12, 150), Run: largeCase, Batch: 1, CPUBudgetS: 120},
 		},
